@@ -8,67 +8,77 @@ From Coq Require Import List Arith NArith Bool.
 Import ListNotations.
 From Verif.C04 Require Import Model.
 
-(* ---- compact encodings shared with harness/cmd/c04 ---- *)
+(* ---- compact encodings shared with harness/cmd/c04 (all numerals are N: binary literals) ---- *)
 Definition idx_pool : list N := [0; 1; 2; 3; 10; 4294967294]%N.
-Definition key_of (c : nat) : key :=
+Definition nn := N.to_nat.
+Definition key_of (c : N) : key :=
+  let c := nn c in
   if Nat.ltb c 6 then KIdx (nth c idx_pool 0%N)
   else if Nat.ltb c 14 then KStr (c - 6) else KSym (c - 14).
-Definition val_of (c : nat) : val :=
+Definition val_of (c : N) : val :=
+  let c := nn c in
   if Nat.eqb c 0 then VUndef else if Nat.ltb c 100 then VNum c else VObj (c - 100).
-Definition tri (c : nat) : option bool :=       (* 0 absent, 1 false, 2 true *)
-  match c with 0 => None | 1 => Some false | _ => Some true end.
-Definition fn_of_code (c : nat) : option (option nat) :=   (* 0 absent, 1 undefined, n+2 function n *)
-  match c with 0 => None | 1 => Some None | S (S n) => Some (Some n) end.
-Definition fnv (c : nat) : option nat := match c with 0 => None | S n => Some n end.
+Definition tri (c : N) : option bool :=       (* 0 absent, 1 false, 2 true *)
+  match nn c with 0 => None | 1 => Some false | _ => Some true end.
+Definition fn_of_code (c : N) : option (option nat) :=   (* 0 absent, 1 undefined, n+2 function n *)
+  match nn c with 0 => None | 1 => Some None | S (S n) => Some (Some n) end.
+Definition fnv (c : N) : option nat := match nn c with 0 => None | S n => Some n end.
+Definition oid (c : N) : option nat := fnv c.    (* 0 = null, i+1 = object i *)
 
-Inductive xdesc := XDs (v : option nat) (w g s e c : nat).
+(* XDs v w g s e c: v = 0 absent, c+1 = value code c *)
+Inductive xdesc := XDs (v w g s e c : N).
 Definition desc_of (x : xdesc) : desc :=
-  match x with XDs v w g s e c => mkDesc (option_map val_of v) (tri w) (fn_of_code g) (fn_of_code s) (tri e) (tri c) end.
+  match x with XDs v w g s e c =>
+    mkDesc (match nn v with 0 => None | S _ => Some (val_of (N.pred v)) end)
+           (tri w) (fn_of_code g) (fn_of_code s) (tri e) (tri c) end.
 
 Inductive xop :=
-| XD (o k : nat) (d : xdesc) | XS (o k : nat) (num : bool) (v r : nat) | XG (o k r : nat) | XH (o k : nat)
-| XO (o k : nat) | XR (o k : nat) | XK (o : nat) | XP (o : nat) | XF (o : nat) | XL (o : nat)
-| XIF (o : nat) | XIS (o : nat) | XIE (o : nat) | XGP (o : nat) | XSP (o : nat) (p : option nat).
+| XD (o k : N) (d : xdesc) | XS (o k : N) (num : bool) (v r : N) | XG (o k r : N) | XH (o k : N)
+| XO (o k : N) | XR (o k : N) | XK (o : N) | XP (o : N) | XF (o : N) | XL (o : N)
+| XIF (o : N) | XIS (o : N) | XIE (o : N) | XGP (o : N) | XSP (o p : N).
 Definition op_of (x : xop) : op :=
   match x with
-  | XD o k d => ODefine o (key_of k) (desc_of d)
-  | XS o k num v r => OSet o (key_of k) num (val_of v) r
-  | XG o k r => OGet o (key_of k) r
-  | XH o k => OHas o (key_of k)
-  | XO o k => OGetOwn o (key_of k)
-  | XR o k => ODelete o (key_of k)
-  | XK o => OKeys o
-  | XP o => OPrevent o
-  | XF o => OFreeze o
-  | XL o => OSeal o
-  | XIF o => OIsFrozen o
-  | XIS o => OIsSealed o
-  | XIE o => OIsExt o
-  | XGP o => OGetProto o
-  | XSP o p => OSetProto o p
+  | XD o k d => ODefine (nn o) (key_of k) (desc_of d)
+  | XS o k num v r => OSet (nn o) (key_of k) num (val_of v) (nn r)
+  | XG o k r => OGet (nn o) (key_of k) (nn r)
+  | XH o k => OHas (nn o) (key_of k)
+  | XO o k => OGetOwn (nn o) (key_of k)
+  | XR o k => ODelete (nn o) (key_of k)
+  | XK o => OKeys (nn o)
+  | XP o => OPrevent (nn o)
+  | XF o => OFreeze (nn o)
+  | XL o => OSeal (nn o)
+  | XIF o => OIsFrozen (nn o)
+  | XIS o => OIsSealed (nn o)
+  | XIE o => OIsExt (nn o)
+  | XGP o => OGetProto (nn o)
+  | XSP o p => OSetProto (nn o) (oid p)
   end.
 
-(* flags: 4 = writable, 2 = enumerable, 1 = configurable *)
-Inductive xprop := PD (v : nat) (flags : nat) | PA (g s : nat) (flags : nat).
-Definition bit (n f : nat) : bool := Nat.odd (Nat.div f n).
+(* a dumped property: key code, then value/flags; flags: 4 = writable, 2 = enumerable, 1 = configurable *)
+Inductive xprop := PD (k v flags : N) | PA (k g s flags : N).
+Definition bit (n : nat) (f : N) : bool := Nat.odd (Nat.div (nn f) n).
 Definition prop_of (x : xprop) : prop :=
   match x with
-  | PD v f => PData (val_of v) (bit 4 f) (bit 2 f) (bit 1 f)
-  | PA g s f => PAcc (fnv g) (fnv s) (bit 2 f) (bit 1 f)
+  | PD _ v f => PData (val_of v) (bit 4 f) (bit 2 f) (bit 1 f)
+  | PA _ g s f => PAcc (fnv g) (fnv s) (bit 2 f) (bit 1 f)
   end.
+Definition xkey (x : xprop) : key := match x with PD k _ _ => key_of k | PA k _ _ _ => key_of k end.
 
-Inductive odump := OD (proto : option nat) (ext : bool) (props : list (nat * xprop)).
+Inductive odump := OD (proto : N) (ext : bool) (props : list xprop).
 Definition dump_of (d : odump) : option nat * bool * list (key * prop) :=
-  match d with OD p e ps => (p, e, map (fun kp => (key_of (fst kp), prop_of (snd kp))) ps) end.
+  match d with OD p e ps => (oid p, e, map (fun x => (xkey x, prop_of x)) ps) end.
 
-Inductive xres := XB (b : bool) | XV (v : nat) | XKs (l : list nat) | XPr (p : option nat)
-                | XDe (p : option xprop) | XAny | XErr (code : nat).
-Inductive xevent := E (f this arg : nat).       (* arg: 0 = no argument, v+1 = value code v *)
+Inductive xres := XB (b : bool) | XV (v : N) | XKs (l : list N) | XPr (p : N)
+                | XD0 | XD1 (p : xprop) | XAny | XErr (code : N).
+Inductive xevent := E (f this arg : N).       (* arg: 0 = no argument, v+1 = value code v *)
 
-(* upd = None: the objects were not dumped after this step; Some l: they were (Reflect.ownKeys on every
-   object, which makes goja order its key lists), l = the dumps that changed since the last dump *)
-Inductive step := St (o : xop) (r : xres) (upd : option (list (nat * odump))) (ev : list xevent).
-Record tcase := mkCase { c_variant : nat; c_init : list odump; c_steps : list step }.
+(* St: the objects were dumped after this step (Reflect.ownKeys on every object, which makes goja
+   order its key lists); upd = the dumps that changed since the last dump.  Sn: no dump. *)
+Inductive uentry := U (i : N) (d : odump).
+Inductive step := St (o : xop) (r : xres) (upd : list uentry) (ev : list xevent)
+                | Sn (o : xop) (r : xres) (ev : list xevent).
+Record tcase := mkCase { c_variant : N; c_init : list odump; c_steps : list step }.
 
 (* ---- equality tests ---- *)
 Definition prop_eqb (a b : prop) : bool :=
@@ -96,17 +106,18 @@ Definition res_match (x : xres) (r : res) : bool :=
   | XB a, RBool b => Bool.eqb a b
   | XV a, RVal b => val_eqb (val_of a) b
   | XKs a, RKeys b => list_eqb key_eqb (map key_of a) b
-  | XPr a, RProto b => ofn_eqb a b
-  | XDe a, RDesc b => oprop_eqb (option_map prop_of a) b
+  | XPr a, RProto b => ofn_eqb (oid a) b
+  | XD0, RDesc b => oprop_eqb None b
+  | XD1 a, RDesc b => oprop_eqb (Some (prop_of a)) b
   | _, _ => false
   end.
 Definition event_eqb (x : xevent) (e : event) : bool :=
   match x, e with
   | E f t a, Ev f' t' a' =>
-      Nat.eqb f f' && Nat.eqb t t' &&
-      match a, a' with
+      Nat.eqb (nn f) f' && Nat.eqb (nn t) t' &&
+      match nn a, a' with
       | 0, None => true
-      | S c, Some v => val_eqb (val_of c) v
+      | S _, Some v => val_eqb (val_of (N.pred a)) v
       | _, _ => false
       end
   end.
@@ -133,31 +144,30 @@ Section Runner.
 Context {H : Type} (mstep : H -> op -> H * res * list event)
         (mdump : H -> H * list (option nat * bool * list (key * prop))).
 
-Fixpoint apply_upd (cur : list odump) (upd : list (nat * odump)) : list odump :=
+Fixpoint apply_upd (cur : list odump) (upd : list uentry) : list odump :=
   match upd with
   | [] => cur
-  | (i, d) :: r =>
+  | U i d :: r =>
       apply_upd ((fix rep (l : list odump) (n : nat) := match l, n with
                                                         | [], _ => []
                                                         | _ :: t, 0 => d :: t
                                                         | x :: t, S m => x :: rep t m
-                                                        end) cur i) r
+                                                        end) cur (nn i)) r
   end.
 
 (* index of the first step whose observation differs from the model, if any *)
 Fixpoint first_bad (h : H) (cur : list odump) (steps : list step) (i : nat) : option nat :=
   match steps with
   | [] => None
-  | St xo xr upd xev :: rest =>
+  | Sn xo xr xev :: rest =>
+      let '(h', r, ev) := mstep h (op_of xo) in
+      if res_match xr r && list_eqb event_eqb xev ev then first_bad h' cur rest (S i) else Some i
+  | St xo xr u xev :: rest =>
       let '(h', r, ev) := mstep h (op_of xo) in
       if res_match xr r && list_eqb event_eqb xev ev
-      then match upd with
-           | None => first_bad h' cur rest (S i)
-           | Some u =>
-               let cur' := apply_upd cur u in
-               let '(h'', ds) := mdump h' in
-               if list_eqb dump_eqb (map dump_of cur') ds then first_bad h'' cur' rest (S i) else Some i
-           end
+      then let cur' := apply_upd cur u in
+           let '(h'', ds) := mdump h' in
+           if list_eqb dump_eqb (map dump_of cur') ds then first_bad h'' cur' rest (S i) else Some i
       else Some i
   end.
 
@@ -166,9 +176,14 @@ Fixpoint model_at (h : H) (steps : list step) (n : nat)
   : option (res * list event * list (option nat * bool * list (key * prop))) :=
   match steps with
   | [] => None
-  | St xo _ _ _ :: rest =>
+  | s :: rest =>
+      let xo := match s with St xo _ _ _ => xo | Sn xo _ _ => xo end in
+      let dumped := match s with St _ _ _ _ => true | Sn _ _ _ => false end in
       let '(h', r, ev) := mstep h (op_of xo) in
-      match n with 0 => Some (r, ev, snd (mdump h')) | S m => model_at h' rest m end
+      match n with
+      | 0 => Some (r, ev, snd (mdump h'))
+      | S m => model_at (if dumped then fst (mdump h') else h') rest m
+      end
   end.
 End Runner.
 
@@ -189,7 +204,7 @@ Definition fixes_of_variant (v : nat) : fixes :=
   end.
 
 Definition case_first_bad (c : tcase) : option nat :=
-  match c_variant c with
+  match nn (c_variant c) with
   | 0 => s_first_bad c
   | v => i_first_bad (fixes_of_variant v) c
   end.
